@@ -331,6 +331,13 @@ class AppEnv:
             models.db.session.remove()
 
 
+    def add_dotted_names_stream(self, directory: str = 'dots') -> None:
+        """A stream whose media file names contain dots (uploads keep the dots of a file name:
+        "promo_1.5mbps_v1.mp4" is stored as media file "promo_1.5mbps_v1")."""
+        files = {'dot_1.5m_v1': FIXTURES / 'bbb' / 'bbb_v7.mp4', 'dot-a.b_a1': FIXTURES / 'bbb' / 'bbb_a1.mp4'}
+        self.add_stream(directory, title='Dotted media names', files=files)
+
+
 def parse_utc(text: str) -> _real_datetime.datetime:
     """Independent minimal xs:dateTime reader (used by oracles on manifest attributes)."""
     import re
